@@ -229,7 +229,9 @@ def limits? (ks : List Char) (unlimited : Outcome) : Option (List Nat) :=
     | _ => some []
   else Wire.natList? ks
 
-def handle (toks : List (List Char)) : String :=
+/-- `extra base descLen trieLen outcome` is appended to the outcome of the unlimited run (the load prediction of
+`Model/BuildLoad.lean`; this file knows nothing of the loader) -/
+def handleWith (extra : Base → Nat → Nat → Outcome → String) (toks : List (List Char)) : String :=
   let g := fun k => Wire.kv? toks k
   match g "v", g "rf", g "nd", g "user", g "upos", g "usys", g "ops" with
   | some v, some rf, some nd, some user, some upos, some usys, some ops =>
@@ -255,12 +257,14 @@ def handle (toks : List (List Char)) : String :=
             let o := finish v p desc trie none
             match limits? ks o with
             | none => "bad-op"
-            | some [] => showOutcome base o ++ ign
+            | some [] => showOutcome base o ++ extra base desc trie o ++ ign
             | some l =>
-              showOutcome base o ++ ign ++ " sink=" ++ rle (l.map (fun k => shortOutcome (finish v p desc trie (some k))))
+              showOutcome base o ++ extra base desc trie o ++ ign ++ " sink=" ++ rle (l.map (fun k => shortOutcome (finish v p desc trie (some k))))
         | _, _ => "bad-op"
       | _, _, _, _ => "bad-op"
     | _, _, _, _ => "bad-op"
   | _, _, _, _, _, _, _ => "bad-op"
+
+def handle (toks : List (List Char)) : String := handleWith (fun _ _ _ _ => "") toks
 
 end Build
